@@ -861,10 +861,20 @@ class BulkProof:
                     av = self.absval(st, f)
                     if av is not None:
                         st.tup[(l, i)] = av
+            elif not rv["fields"]:
+                # a variant of a private field-less enum used as an internal flag (`PivotLookup::Found`): a known constant, like a
+                # bool – its discriminant is the variant's position
+                a_ = self.prog.adts.get(rv["adt"])
+                if a_ and a_.get("kind") == "Enum" and all(not v_["fields"] for v_ in a_["variants"]):
+                    names_ = [v_["name"] for v_ in a_["variants"]]
+                    if rv.get("variant") in names_:
+                        st.bconst[l] = names_.index(rv["variant"])
             return
         if k == "discr" and not rv["pl"]["p"]:
             if rv["pl"]["l"] in st.ordcmp or rv["pl"]["l"] in st.bs:
                 st.discr_of[l] = rv["pl"]["l"]
+            elif rv["pl"]["l"] in st.bconst:
+                st.bconst[l] = st.bconst[rv["pl"]["l"]]
             return
         if k == "rawptr":
             pl = rv["pl"]
